@@ -20,6 +20,13 @@ V3_KINDS = ['na', 'list', 'dict', 'grid', 'xstr']
 COLS = ['a', 'b']
 
 
+def random_version(r):
+    """An arbitrary dotted version with an optional text suffix (the statement includes non-official
+    version strings); the model decides them all the same way: accepted iff greater than 2.0."""
+    nums = [str(r.choice([0, 1, 2, 2, 2, 3, 3, 4, 10, 20])) for _ in range(r.choice([1, 2, 2, 3, 4]))]
+    return '.'.join(nums) + r.choice(['', '', '', 'a', 'b', '-rc1', 'beta', 'z'])
+
+
 def is_v3(spec):
     if spec == 'na':
         return True
@@ -134,16 +141,16 @@ class C10(BaseCheck):
         r = rng.stream(run_seed, 'ops')
         roll = k.random()
         if roll < 0.2:
-            return {'class': 'wire', 'fmt': k.choice(['zinc', 'json']), 'ver': k.choice(VERSIONS[1:]),
+            return {'class': 'wire', 'fmt': k.choice(['zinc', 'json']), 'ver': k.choice(VERSIONS[1:]) if k.random() < 0.7 else random_version(k),
                     'kind': k.choice(V3_KINDS), 'pos': k.choice(['gmeta', 'cmeta', 'cell', 'inlist', 'indict', 'nested', 'nested-meta']),
                     'visit': [k.choice(VERSIONS[1:]) for _ in range(k.choice([0, 1, 2]))], 'ops': [],
                     # how the document reaches the reader: text, already-decoded JSON object, or one grid of a multi-grid text
                     'api': k.choice(['text', 'text', 'obj', 'multi'])}
         if roll < 0.3:
-            return {'class': 'scalar', 'ver': k.choice(VERSIONS[1:]), 'kind': k.choice(V3_KINDS),
+            return {'class': 'scalar', 'ver': k.choice(VERSIONS[1:]) if k.random() < 0.7 else random_version(k), 'kind': k.choice(V3_KINDS),
                     'nest': k.choice(['none', 'inlist', 'indict']), 'ops': []}
         p_v3 = k.choice([0.15, 0.3, 0.5])
-        gver = k.choice(VERSIONS)
+        gver = k.choice(VERSIONS) if k.random() < 0.85 else random_version(k)
         ctor = {'meta': [], 'cols': {'a': [], 'b': []}, 'meta_as': k.choice(['dict', 'sd', 'mo']), 'cols_as': k.choice(['pairs', 'dict', 'mo']),
                 'ver_as': k.choice(['str', 'str', 'obj'])}
         for j in range(k.choice([0, 0, 1, 2])):
